@@ -282,7 +282,7 @@ def vmInputs (ops : List (List String)) : Option (List Vm.Env) :=
     | _ :: rest => go rest now acc
   go ops 0 []
 
-def parseIObs (toks : List String) : Option C01.IObs :=
+def parseIObs (toks : List String) : Option Lang.Frag.IObs :=
   match toks with
   | ["I", rc, c, r, sent] => do
     let rcv : Int ← rc.toInt?
